@@ -87,6 +87,7 @@ func checkC16(c *vh.Ctx) {
 	}
 	c.Correspond("rotation.day", cases, impl, 0, 0, func(i int) interface{} { return inputs[cases[i]] })
 	c16SessionStage(c)
+	c16AutoFertStage(c)
 }
 
 func c16Run(c *vh.Ctx, r *vh.Rng, k int, root string, cases, impl *[]string, inputs map[string]interface{}) {
